@@ -176,8 +176,17 @@ def _worker(args):
     ctx = Ctx(prop, tier, seed, widx, nworkers)
     res = {'widx': widx, 'inconclusive': None, 'error': None}
     try:
-        # 1. explicit / enumerated cases, sharded
-        for i, case in enumerate(prop.explicit_cases(ctx)):
+        # 1. replay tier (saved inputs: /verif/regress/<ID>/*.json) then explicit / enumerated cases, sharded
+        import glob as _glob, itertools as _it
+        saved = []
+        for rp in sorted(_glob.glob(os.path.join(VERIF, 'regress', pid, '*.json'))):
+            try:
+                d = json.load(open(rp))
+                saved.append(d['case'] if 'case' in d else d)
+            except (ValueError, KeyError):
+                pass
+        ctx.count('regress_cases', len(saved) if widx == 0 else 0)
+        for i, case in enumerate(_it.chain(saved, prop.explicit_cases(ctx))):
             if i % nworkers != widx:
                 continue
             f = ctx.run_case(case)
